@@ -696,7 +696,11 @@ def run_chanparams(case) -> CaseResult:
             labels.add('channel-established')
             n = case['app_write']
             before = h.wire.written[side]
-            h.wire.budget[side] = before + 4 * n + 300000
+            # the peer chooses the packet size: with a maximum packet size
+            # of 1 every data byte legitimately costs a whole packet (plus
+            # the IGNORE packet asyncssh sends before it), about 100 bytes
+            per_byte = 4 if P >= 64 else 250
+            h.wire.budget[side] = before + per_byte * n + 300000
 
             try:
                 h.call(target.write, b'w' * n)
